@@ -690,10 +690,155 @@ func resourceCases() []*ProgCase {
 			&ProgCase{Note: fmt.Sprintf("mutual recursion inside %d nested object literals", n), Prog: "function f(n) { return " + rep("{ a: ", n) + "h(n + 1)" + rep(" }", n) + " }\nfunction h(n) { return f(n) }\n{ f(0) }", Inputs: in},
 		)
 	}
+	// runaway recursion through every mix of call and match frames, entered from
+	// several contexts: whichever kind of frame is the one that exceeds the limit,
+	// the outcome must be an ordinary runtime error
+	recShapes := []struct{ name, def string }{
+		{"call", "function f(n) { return f(n + 1) }"},
+		{"call+match-expr", "function f(n) { return match (n) { x => f(x + 1) } }"},
+		{"call+match-block", "function f(n) { match (n) { x => { return f(x + 1) } } }"},
+		{"call+2-matches", "function f(n) { return match (n) { x => match (x) { y => f(y + 1) } } }"},
+		{"call+3-matches", "function f(n) { return match (n) { x => match (x) { y => match (y) { z => f(z + 1) } } } }"},
+		{"two-functions+match", "function f(n) { return match (n) { x => h(x) } }\nfunction h(n) { return f(n + 1) }"},
+	}
+	entries := []struct{ name, call string }{
+		{"BEGIN", "BEGIN { f(0) }"},
+		{"match-expr", "BEGIN { v = match (0) { s => f(s) } }"},
+		{"match-block", "BEGIN { match (0) { s => { f(s) } } }"},
+		{"2-matches", "BEGIN { v = match (0) { s => match (s) { t => f(t) } } }"},
+		{"function", "function e1(a) { return f(a) }\nBEGIN { e1(0) }"},
+		{"function+match", "function e1(a) { return match (a) { q => f(q) } }\nBEGIN { e1(0) }"},
+		{"pattern", "f(0) { print 1 }"},
+		{"END-match", "END { print match (1) { s => f(s) } }"},
+	}
+	for _, r := range recShapes {
+		for _, en := range entries {
+			c := &ProgCase{Note: "runaway recursion " + r.name + " entered from " + en.name, Prog: r.def + "\n" + en.call}
+			if en.name == "pattern" {
+				c.Inputs = in
+			}
+			cs = append(cs, c)
+		}
+	}
 	for _, c := range cs {
 		c.RootJSON = true
 	}
 	return cs
+}
+
+// ---------------------------------------------------------------- limit boundaries
+
+// BoundaryCase: which statement or expression is the one that crosses an
+// internal limit must not matter. The harness first *measures* where the
+// boundary lies (no implementation constant appears here): it looks for a
+// recursion depth D and a chain length c such that the program below succeeds
+// with c nested blocks and is refused with c+1, and then places every kind of
+// statement at the innermost position for chain lengths around that boundary.
+type BoundaryCase struct {
+	Stmt   string `json:"stmt"`   // innermost statement
+	Prefix string `json:"prefix"` // extra definitions
+	PerLvl int    `json:"per_level"`
+}
+
+func boundaryProgram(c *BoundaryCase, depth, chain int, stmt string) string {
+	var sb strings.Builder
+	sb.WriteString(c.Prefix)
+	sb.WriteString("function g() { return 1 }\n")
+	sb.WriteString("function f(n) {\n")
+	sb.WriteString("  if (n > 0) { return " + strings.Repeat("!", c.PerLvl) + "f(n - 1) }\n")
+	sb.WriteString("  for (lq in [1]) { " + strings.Repeat("{ ", chain) + stmt + strings.Repeat(" }", chain) + " }\n")
+	sb.WriteString("}\n")
+	sb.WriteString(fmt.Sprintf("{ f(%d)\n print \"done\" }\n", depth))
+	return sb.String()
+}
+
+func runBoundaryOnce(prog string) (kind, msg string) {
+	lang.VerifResetProcessState()
+	func() {
+		defer func() {
+			if r := recover(); r != nil {
+				kind, msg = "panic", fmt.Sprint(r)
+			}
+		}()
+		var out bytes.Buffer
+		_, err := lang.EvalProgram(prog, []lang.InputFile{{Name: "in.json", Reader: strings.NewReader("[1]")}}, nil, &out, false)
+		kind, msg = classifyErr(err)
+	}()
+	return
+}
+
+func runBoundaryCase(c *BoundaryCase, keep bool) Outcome {
+	log := newEventLog(keep)
+	o := Outcome{Probes: map[string]int{}, Nontrivial: true, Shape: "boundary|" + c.Stmt}
+	finish := func() Outcome {
+		o.LogHash, o.Log, o.Steps = log.Hash(), log.lines, log.seq
+		return o
+	}
+	// 1. measure: deepest recursion (below the call limit) at which a neutral
+	//    innermost statement still succeeds with an empty chain
+	neutral := "lz = 1"
+	ok := func(d, ch int) bool {
+		k, _ := runBoundaryOnce(boundaryProgram(c, d, ch, neutral))
+		return k == "success"
+	}
+	// binary search for the deepest recursion that still succeeds with an empty chain
+	lo, hi := 0, 4050
+	if !ok(100, 0) {
+		o.Skipped = "no successful depth found"
+		return finish()
+	}
+	lo = 100
+	for lo < hi {
+		mid := (lo + hi + 1) / 2
+		if ok(mid, 0) {
+			lo = mid
+		} else {
+			hi = mid - 1
+		}
+	}
+	depth := lo
+	// longest chain that still succeeds at that depth (exponential, then binary search)
+	chain, step := 0, 1
+	for chain+step <= 512 && ok(depth, chain+step) {
+		chain += step
+		step *= 2
+	}
+	for step /= 2; step >= 1; step /= 2 {
+		if chain+step <= 512 && ok(depth, chain+step) {
+			chain += step
+		}
+	}
+	log.add('B', 0, "BOUNDARY depth=%d chain=%d per-level=%d", depth, chain, c.PerLvl)
+	if chain >= 512 {
+		// the call depth limit, not the nesting limit, is what stops this shape
+		o.Probes["boundary_is_call_depth"]++
+	}
+	// 2. every chain length around the boundary with the statement under test innermost
+	for d := -8; d <= 4; d++ {
+		cl := chain + d
+		if cl < 0 {
+			continue
+		}
+		k, m := runBoundaryOnce(boundaryProgram(c, depth, cl, c.Stmt))
+		log.add('B', 0, "RUN chain=%d stmt=%q -> %s %s", cl, c.Stmt, k, shapeOfMsg(m))
+		o.Probes["boundary_runs"]++
+		switch k {
+		case "panic":
+			o.Class, o.Msg = "panic", fmt.Sprintf("with `%s` as the statement that crosses the internal limit (recursion depth %d, %d nested blocks): internal panic: %s", c.Stmt, depth, cl, m)
+			return finish()
+		case "foreign":
+			o.Class, o.Msg = "foreign-error", fmt.Sprintf("with `%s` as the statement that crosses the internal limit (recursion depth %d, %d nested blocks): %s", c.Stmt, depth, cl, m)
+			return finish()
+		}
+	}
+	return finish()
+}
+
+var boundaryStmts = []string{
+	"return", "return 1", "return g()", "next", "exit", "break", "continue", "print 1", "print", "lz = 1", "lz++", "g()",
+	"if (1) { lz = 1 }", "if (0) { lz = 1 } else { lz = 2 }", "while (0) { }", "for (li = 0; li < 1; li++) { }", "for (lw in [1]) { }",
+	"lz = match (1) { 1 => 2 }", "match (1) { lm => { lz = lm } }", "lz = [1, [2]]", "lz = {a: {b: 1}}", "lz = !!!!1", "lz = 1 + (2 * (3 - 1))",
+	"printf(\"%s\", \"\")", "lz = \"abc\".upper()", "lz = [3, 1].sort()", "lz = $.k", "$ = 1", "lz = json([1])", "lz.a.b[2] = 1",
 }
 
 // ---------------------------------------------------------------- registration
@@ -735,6 +880,17 @@ func registerC01() {
 		progWorkload("expr-api", map[string]int{"quick": 40000, "thorough": 2000000}, func(i int, t *Tape, tier string) *ProgCase { return genExprCase(t) }, false),
 		streamWorkload("faulted-streams", map[string]int{"quick": 30000, "thorough": 1000000}, streamGenOpts{mode: "c01", maxFiles: 3, maxVals: 4, selectors: true, faults: allFaults, faultProb: 90, sigProb: 25}),
 		progWorkload("resource", map[string]int{"quick": len(res), "thorough": len(res)}, func(i int, t *Tape, tier string) *ProgCase { return res[t.Forced(i, len(res))] }, true),
+		{
+			Name:  "limit-boundary",
+			Count: func(tier string) int { return len(boundaryStmts) * map[string]int{"quick": 1, "thorough": 3}[tier] },
+			Gen: func(i int, t *Tape, tier string) any {
+				k := t.Forced(i, len(boundaryStmts)*3)
+				return &BoundaryCase{Stmt: boundaryStmts[k%len(boundaryStmts)], PerLvl: []int{60, 75, 90}[k/len(boundaryStmts)%3]}
+			},
+			Run:      func(c any, keep bool) Outcome { return runBoundaryCase(c.(*BoundaryCase), keep) },
+			New:      func() any { return &BoundaryCase{} },
+			Isolated: true,
+		},
 		procWorkload("process", map[string]int{"quick": 3000, "thorough": 200000}, true),
 		{
 			// the signal grid once more, through the real binary (status / stderr / no stack trace)
